@@ -375,9 +375,14 @@ def run_updown(ev, state, coords, job):
     return out
   g = coords.horizontal
   gcfg = dict(job['grid'])
-  gcfg['k'] = gcfg['k'] + rng.randint(1, 4)
+  dk = rng.randint(1, 4)
+  gcfg['k'] = gcfg['k'] + dk
   if gcfg['kind'] == 'construct':
     gcfg['g'] = gcfg['g'] + 2
+  if gcfg['kind'] == 'custom':
+    gcfg['L'] = gcfg['L'] + dk + rng.randint(0, 1)
+    gcfg['lon'] = max(gcfg['lon'], 3 * gcfg['k'] + 1)
+    gcfg['lat'] = max(gcfg['lat'], -(-(3 * gcfg['L'] + 1) // 2))
   fine_grid = gen.build_grid(gcfg, g.spherical_harmonics_impl)
   fine = coordinate_systems.CoordinateSystem(fine_grid, coords.vertical)
   try:
